@@ -529,6 +529,8 @@ package validate
 //@   ensures[C04,C06] result != nil && okResult(result)
 //@   ensures[C08] implies(!old(o.Options.recycleValidators), unchanged(all(o)))
 //@   on_panic ensures[C11] redeemed(o) == old(o.Options.recycleValidators)
+//@   loop 1 invariant[C04] liveRes(res) && !redeemed(o) && unchanged(all(o))
+//@   loop 2 invariant[C04] liveRes(res) && !redeemed(o) && unchanged(all(o))
 
 //@ func IsValueValidAgainstRange
 //@   requires[C06] val != nil
@@ -1019,6 +1021,74 @@ package validate
 //@   ensures[C08] implies(!old(s.Options.recycleValidators), unchanged(all(s)))
 //@   on_panic ensures[C11] redeemed(s) == old(s.Options.recycleValidators)
 //@   loop 1 invariant 0 <= i && i <= int(size) && !redeemed(s) && unchanged(all(s)) && s.Items != nil
+
+
+// ---------------------------------------------------------------------------
+// objectValidator helpers: thin discipline contracts (what they may touch: the result they are given, scratch
+// schemas from the pool, the validators they build and run); nothing is said about which errors they report.
+//@ func (*objectValidator).checkArrayMustHaveItems
+//@   effects validation
+//@   maypanic
+//@   requires[C04,C06] resP(res)
+//@   modifies all(res), elems(res.Errors), elems(res.Warnings)
+//@   ensures[C04] resP(res) && !redeemed(o) && arrsOK(res)
+//@   ensures[C08] unchanged(all(o))
+//@   on_panic ensures[C11] !redeemed(o)
+//@ func (*objectValidator).checkItemsMustBeTypeArray
+//@   effects validation
+//@   maypanic
+//@   requires[C04,C06] resP(res)
+//@   modifies all(res), elems(res.Errors), elems(res.Warnings)
+//@   ensures[C04] resP(res) && !redeemed(o) && arrsOK(res)
+//@   ensures[C08] unchanged(all(o))
+//@   on_panic ensures[C11] !redeemed(o)
+//@ func (*objectValidator).precheck
+//@   effects validation
+//@   maypanic
+//@   requires[C04,C06] resP(res)
+//@   modifies all(res), elems(res.Errors), elems(res.Warnings)
+//@   ensures[C04] resP(res) && !redeemed(o) && arrsOK(res)
+//@   ensures[C08] unchanged(all(o))
+//@   on_panic ensures[C11] !redeemed(o)
+//@ func (*objectValidator).validateNoAdditionalProperties
+//@   effects validation
+//@   maypanic
+//@   requires[C04,C06] resP(res) && (val == nil || isJSON(val))
+//@   modifies all(res), elems(res.Errors), elems(res.Warnings)
+//@   ensures[C04] resP(res) && !redeemed(o) && arrsOK(res)
+//@   ensures[C08] unchanged(all(o))
+//@   on_panic ensures[C11] !redeemed(o)
+//@   loop 1 invariant[C04] resP(res) && !redeemed(o) && unchanged(all(o)) && arrsOK(res)
+//@   loop 2 invariant[C04] resP(res) && !redeemed(o) && unchanged(all(o)) && arrsOK(res)
+//@   loop 3 invariant[C04] resP(res) && !redeemed(o) && unchanged(all(o)) && arrsOK(res)
+//@ func (*objectValidator).validateAdditionalProperties
+//@   effects validation
+//@   maypanic
+//@   requires[C04,C06] resP(res) && (val == nil || isJSON(val))
+//@   modifies all(res), elems(res.Errors), elems(res.Warnings)
+//@   ensures[C04] resP(res) && !redeemed(o) && arrsOK(res)
+//@   ensures[C08] unchanged(all(o))
+//@   on_panic ensures[C11] !redeemed(o)
+//@   loop 1 invariant[C04] resP(res) && !redeemed(o) && unchanged(all(o)) && arrsOK(res)
+//@ func (*objectValidator).validatePropertiesSchema
+//@   effects validation
+//@   maypanic
+//@   requires[C04,C06] resP(res) && (val == nil || isJSON(val))
+//@   modifies all(res), elems(res.Errors), elems(res.Warnings)
+//@   ensures[C04] resP(res) && !redeemed(o) && arrsOK(res)
+//@   ensures[C08] unchanged(all(o))
+//@   on_panic ensures[C11] !redeemed(o)
+//@   loop 1 invariant[C04] resP(res) && !redeemed(o) && unchanged(all(o)) && arrsOK(res) && pSchema != nil && !redeemed(pSchema)
+//@   loop 2 invariant[C04] resP(res) && !redeemed(o) && unchanged(all(o)) && arrsOK(res) && pSchema != nil && !redeemed(pSchema)
+//@ func (*objectValidator).validatePatternProperty
+//@   effects validation
+//@   maypanic
+//@   requires[C04,C06] resP(result) && isJSON(value)
+//@   modifies all(result), elems(result.Errors), elems(result.Warnings)
+//@   ensures[C04] resP(result) && !redeemed(o) && arrsOK(result)
+//@   ensures[C08] unchanged(all(o))
+//@   on_panic ensures[C11] !redeemed(o)
+//@   loop 1 invariant[C04] resP(result) && !redeemed(o) && unchanged(all(o)) && arrsOK(result) && schema != nil && !redeemed(schema) && (arr(patterns) == nil || fresh(arr(patterns)))
 
 // Option values: every option closure of the package writes only the options struct it is given; calls of Option
 // values rely on this (functype contract), and each closure is verified against it.
